@@ -32,10 +32,10 @@ static BaseField *vf_mk(const char *from, const RealmBase *db, const int)
 }
 struct BE { BaseField *(*mk)(const char *, const RealmBase *, const int); const char *name; unsigned short fnum; const RealmBase *rlm; const char *comment; };
 static_assert(sizeof(BE) == sizeof(BaseEntry), "BaseEntry layout");
-struct FLU { BE e[VF_FLU_SZ]; const BE *p[VF_FLU_SZ];
+#define VF_NKNOWN (sizeof(vf_known_tags) / sizeof(*vf_known_tags))
+struct FLU { BE e[VF_NKNOWN]; const BE *p[VF_FLU_SZ];
    constexpr FLU() : e{}, p{} {
-      for (unsigned i = 0; i < VF_FLU_SZ; ++i) { e[i].mk = vf_mk; e[i].name = "f"; e[i].fnum = i; e[i].rlm = nullptr; e[i].comment = nullptr; }
-      for (unsigned i = 0; i < sizeof(vf_known_tags) / sizeof(*vf_known_tags); ++i) p[vf_known_tags[i]] = &e[vf_known_tags[i]];
+      for (unsigned i = 0; i < VF_NKNOWN; ++i) { e[i].mk = vf_mk; e[i].name = "f"; e[i].fnum = vf_known_tags[i]; e[i].rlm = nullptr; e[i].comment = nullptr; p[vf_known_tags[i]] = &e[i]; }
    } };
 static constexpr FLU vf_flu;
 
